@@ -681,6 +681,7 @@ func (s *ShapeIndex) Len() int {
 func (s *ShapeIndex) Reset() {
 	verifAccess(s, verifLocShapes, true)
 	verifAccess(s, verifLocCells, true)
+	verifAccess(s, verifLocPending, true)
 	s.shapes = make(map[int32]Shape)
 	s.nextID = 0
 	s.cellMap = make(map[CellID]*ShapeIndexCell)
@@ -858,6 +859,8 @@ func (s *ShapeIndex) applyUpdatesInternal() {
 	// update is actually pending, e.g. when a second goroutine gets here after
 	// the first one has already applied the updates.)
 	if !s.isFirstUpdate() && (s.pendingAdditionsPos < int32(len(s.shapes)) || len(s.pendingRemovals) > 0) {
+		verifAccess(s, verifLocCells, true)
+		verifAccess(s, verifLocPending, true)
 		s.cellMap = make(map[CellID]*ShapeIndexCell)
 		s.cells = nil
 		s.pendingAdditionsPos = 0
